@@ -571,10 +571,27 @@ pub fn run_c14(cfg: &Cfg) {
         for x in big {
             for (hi, h) in hosts.iter().enumerate() {
                 let p = h(x);
-                for (limit, want_ok) in [(Some(10usize), false), (None, true)] {
+                // every limit alone and in combination with every other option, in both orders: an option
+                // must not undo another one
+                for (limit, want_ok, combo) in [
+                    (Some(10usize), false, 0), (None, true, 0), (Some(10usize), false, 1), (Some(10usize), false, 2), (Some(10usize), false, 3),
+                    (Some(10usize), false, 4), (None, true, 1), (None, true, 3),
+                ] {
                     let mut b = RegexBuilder::new(&p);
+                    if combo == 2 {
+                        b.delegate_dfa_size_limit(2 * (1 << 20));
+                    }
+                    if combo == 4 {
+                        b.backtrack_limit(5).case_insensitive(true);
+                    }
                     if let Some(l) = limit {
                         b.delegate_size_limit(l);
+                    }
+                    if combo == 1 {
+                        b.delegate_dfa_size_limit(2 * (1 << 20));
+                    }
+                    if combo == 3 {
+                        b.delegate_dfa_size_limit(1 << 30).backtrack_limit(7).case_insensitive(false);
                     }
                     let ok = b.build().is_ok();
                     s.count("size_limit_cases");
@@ -582,7 +599,7 @@ pub fn run_c14(cfg: &Cfg) {
                         s.violation(
                             "C14",
                             "size-limit",
-                            &[("pattern", p.clone()), ("detail", format!("host {} delegate_size_limit={:?}: builds={} expected={}", hi, limit, ok, want_ok))],
+                            &[("pattern", p.clone()), ("detail", format!("host {} delegate_size_limit={:?} (option combination {}): builds={} expected={}", hi, limit, combo, ok, want_ok))],
                         );
                     }
                 }
